@@ -17,7 +17,7 @@ import (
 	"github.com/protolambda/ztyp/tree"
 )
 
-var treeHashFn = tree.GetHashFn()
+func hFn() tree.HashFn { return tree.GetHashFn() }
 
 // GenVal describes one genesis validator (or a later depositor).
 type GenVal struct {
@@ -153,6 +153,7 @@ func genesisRecord(rec *Recorder, sp *common.Spec, hash common.Root, t common.Ti
 		return nil, nil, ""
 	case err != nil:
 		rec.Line("genesis %s %d %s ERR - %s", hex.EncodeToString(hash[:]), t, file, tag)
+		rec.Comment("error: " + err.Error())
 		return nil, nil, ""
 	}
 	id = rec.State(st)
